@@ -104,6 +104,8 @@ def run_case(rng, idx, tier):
             viol.append({"key": dict(k, kind="non-finite-output", pair="%s|%s" % (O.base_kind(sA), O.base_kind(sB))), "err": None,
                          "msg": "%s(%s,%s) [%s] returned a non-finite value: %r" % (name, names[0], names[1], cls, res)[:400]})
 
+    last_proxies = [None, None]
+
     def with_proxies(name, f, fields=None, fresh=False):
         if fresh:
             # mesh colliders cache their last support vertex, so iteration paths depend on history (ties):
@@ -111,7 +113,8 @@ def run_case(rng, idx, tier):
             A2, B2 = pairs.build_pair(sA, sB)
         else:
             A2, B2 = A, B
-        pa = monitors.Counted(A2, LIMIT); pb = pa if B2 is A2 else monitors.Counted(B2, LIMIT)
+        pa = monitors.Counted(A2, LIMIT, record=True); pb = pa if B2 is A2 else monitors.Counted(B2, LIMIT, record=True)
+        last_proxies[:] = [pa, pb]
         try:
             r = f(pa, pb)
             n = pa.n + (0 if pb is pa else pb.n)
@@ -124,6 +127,7 @@ def run_case(rng, idx, tier):
     # the returned simplex arrays come from np.empty and carry unused (garbage) rows: only the documented
     # scalar/point outputs are judged for finiteness
     r_jolt, n_jolt = with_proxies("gjk_distance_jolt", lambda a, b: gjk.gjk_distance_jolt(a, b), fields=(0, 1, 2), fresh=True)
+    jolt_proxies = list(last_proxies)
     with_proxies("gjk_intersection_jolt", lambda a, b: gjk.gjk_intersection_jolt(a, b))
     with_proxies("gjk_intersection_libccd", lambda a, b: gjk.gjk_intersection_libccd(a, b))
     r_orig, n_orig = with_proxies("gjk_distance_original", lambda a, b: gjk.gjk_distance_original(a, b), fields=(0, 1, 2, 4), fresh=True)
@@ -144,7 +148,9 @@ def run_case(rng, idx, tier):
         simplex = np.array(r_jolt[3], dtype=float)
         if np.all(np.isfinite(simplex)):
             ev["epa_calls"] += 1
+            key0["simplex_degenerate"] = not monitors.simplex_is_tetrahedron(simplex, jolt_proxies[0], jolt_proxies[1])
             with_proxies("epa", lambda a, b: epa_mod.epa(simplex, a, b), fields=(0, 2))
+            key0.pop("simplex_degenerate")
     # Nesterov variants: raw colliders (type dispatch), sys.monitoring counter
     for acc in (False, True):
         nm = "gjk_nesterov_accelerated[acc=%s]" % acc
